@@ -64,6 +64,9 @@ func (e *Engine) FindAt(haystack []byte, at int) *Match {
 // findAtZero dispatches to the appropriate strategy for position 0.
 // This is a helper function to reduce cyclomatic complexity in FindAt.
 func (e *Engine) findAtZero(haystack []byte) *Match {
+	if e.longest {
+		return e.findNFA(haystack) // leftmost-longest: NFA engines only (see FindIndices)
+	}
 	switch e.strategy {
 	case UseNFA:
 		return e.findNFA(haystack)
@@ -118,6 +121,9 @@ func (e *Engine) findAnchoredLiteral(haystack []byte) *Match {
 // findAtNonZero dispatches to the appropriate strategy for non-zero positions.
 // This is a helper function to reduce cyclomatic complexity in FindAt.
 func (e *Engine) findAtNonZero(haystack []byte, at int) *Match {
+	if e.longest {
+		return e.findNFAAt(haystack, at) // leftmost-longest: NFA engines only
+	}
 	switch e.strategy {
 	case UseNFA:
 		return e.findNFAAt(haystack, at)
